@@ -145,6 +145,9 @@ __wrap_poll(struct pollfd * fds, nfds_t nfds, int timeout)
 	for (i = 0; i < nfds; i++)
 		if (fds[ord[i]].revents)
 			w_emit("%d %d", fds[ord[i]].fd, short_to_bits(fds[ord[i]].revents));
+	/* a successful call may leave anything in errno: it leaves the value that would mean
+	 * "interrupted" had the call failed */
+	errno = EINTR;
 	return (cnt);
 }
 
